@@ -165,4 +165,33 @@ func ruleResetEqualsNew(p *Prog, r *Report, rule string) {
 			}
 		}
 	}
+	// Writer.Reset is also one of the calls that FINISH the pending chunk (like Flush, Next and
+	// Close): what was buffered belongs to the old stream, so writePending() runs before the
+	// underlying writer (and its flusher) are replaced
+	if rf := resolveFn(p, r, "leveldb/journal", "(*Writer).Reset"); rf != nil {
+		pend := evCall("(*leveldb/journal.Writer).writePending")
+		for _, f := range []string{"w", "f"} {
+			swap := evStoreField("leveldb/journal.Writer", f)
+			ordPrecede(p, r, rf, "pending-chunk-to-old-stream:"+f, func(b *ssa.BasicBlock, succ int) bool {
+				// only the branch on which there is no latched error writes the pending chunk
+				cond, neg, ok := ifCond(b)
+				if !ok {
+					return true
+				}
+				x, trueNonNil, okN := condNilTest(cond)
+				if !okN || !isFieldLoad(x, "leveldb/journal.Writer", "err") {
+					return true
+				}
+				if neg {
+					trueNonNil = !trueNonNil
+				}
+				nilEdge := 1
+				if !trueNonNil {
+					nilEdge = 0
+				}
+				return succ == nilEdge
+			}, pend, "writePending() (into the old writer)", swap, "w."+f+" = the new writer")
+		}
+	}
+
 }
